@@ -37,6 +37,30 @@ def NoneReturn(x: int, good: bool) -> tuple[int, int]:
     return (x, x) if good else None
 
 
+@python.define
+def SysExit(x: int, good: bool) -> int:
+    _log("SysExit")
+    if not good:
+        import sys
+
+        sys.exit(3)
+    return x
+
+
+@python.define
+def Interrupted(x: int, good: bool) -> int:
+    _log("Interrupted")
+    if not good:
+        raise KeyboardInterrupt()
+    return x
+
+
+@python.define
+def NeedsFile(p: str) -> int:
+    _log("NeedsFile")
+    return len(open(p).read())
+
+
 @workflow.define
 def WfFail(x: int, good: bool) -> int:
     n = workflow.add(Raises(x=x, good=good), name="n")
@@ -61,4 +85,6 @@ POOL = {
     "workflow-node-raises": lambda good: WfFail(x=1, good=good),
     "workflow-split-node-raises": lambda good: WfSplitFail(x=1, good=good),
     "shell-nonzero-exit": _shell,
+    "python-sys-exit": lambda good: SysExit(x=1, good=good),
+    "python-keyboard-interrupt": lambda good: Interrupted(x=1, good=good),
 }
